@@ -145,10 +145,17 @@ class Monitor:
             ctx.extra["max_pieces_in_one_call"] = max(ctx.extra.get("max_pieces_in_one_call", 0), len(s_p) - 1)
         for i in range(len(s_p) - 1):
             p0, p1, p2, p3 = s_p[i][1], s_p[i][2], s_p[i + 1][0], s_p[i + 1][1]
+            piece_limit = limit
+            if self.mode != "exact":
+                # the library measures in floats: at coordinate magnitude S a distance carries an absolute
+                # rounding error of up to ~64 ulp(S) (see C09.band_abs) - it matters only when the chord is
+                # more than ~1e9 flatnesses long
+                scale = max(abs(float(c)) for pt in (p0, p1, p2, p3) for c in pt)
+                piece_limit = (Fraction(flat) * (1 + EPS_REL) + 64 * Fraction(2.220446049250313e-16) * Fraction(scale)) ** 2
             for inner in (p1, p2):
                 if self.mode != "exact" and clearly(inner, p0, p3, flat) == "below":
                     continue
-                if dist2_exact(inner, p0, p3) >= limit:
+                if dist2_exact(inner, p0, p3) >= piece_limit:
                     witness.update(piece_index=i, piece=[list(map(float, p)) for p in (p0, p1, p2, p3)])
                     ctx.violation("a control point is not within the flatness of its chord", witness)
                     return True
@@ -179,7 +186,29 @@ def install(ctx):
 
 
 # ---------------------------------------------------------------- generators
+def gen_long_flat(rng):
+    """A long, almost straight piece: chord 1e7.5 .. 1e10 times longer than the flatness, inner handles a
+    fraction of the flatness to a few flatnesses off the chord (projecting inside it) - where a distance
+    formula that subtracts two large, nearly equal numbers returns rounding noise."""
+    length = rng.choice((100.0, 1000.0, 1e4, 12345.678))
+    flat = length / 10 ** rng.uniform(7.5, 10)
+    ang = rng.uniform(0, 2 * math.pi)
+    ux, uy = math.cos(ang), math.sin(ang)
+    ox, oy = rng.uniform(-50, 50), rng.uniform(-50, 50)
+    nodes = []
+    n = rng.choice((2, 2, 3))
+    for i in range(n):
+        px, py = ox + ux * length * i, oy + uy * length * i
+        k_in, k_out = (rng.choice((0.3, 0.9, 1.5, 2.0, 3.0, 10.0)) * rng.choice((1, -1)) for _ in range(2))
+        h_in = [px - ux * length / 3 - uy * k_in * flat, py - uy * length / 3 + ux * k_in * flat]
+        h_out = [px + ux * length / 3 - uy * k_out * flat, py + uy * length / 3 + ux * k_out * flat]
+        nodes.append([h_in, [px, py], h_out])
+    return ["long almost-straight piece (chord / flatness 1e7.5 .. 1e10)"], nodes, flat
+
+
 def gen_path(rng):
+    if rng.random() < 0.035:
+        return gen_long_flat(rng)
     c = rng.random()
     scale = rng.choice((1.0, 1.0, 10.0, 100.0, 1000.0, 0.01))
     n = rng.choice((1, 2, 2, 2, 3, 4, rng.randint(2, 12)))
@@ -390,6 +419,13 @@ def run(ctx):
         if ln <= 3:
             ctx.sample({"nodes": nodes, "flat": flat}, tag=classes[0], per_tag=1)
         pristine = [[list(pt) for pt in node] for node in nodes]
+        if classes[0].startswith("long almost-straight"):
+            # flatness, order and end nodes only: matching sub-pieces of an almost straight line against
+            # the dyadic tree is ambiguous by construction (they all look alike) and very slow
+            mon.mode = "deep"
+            one_case(ctx, mon, nodes, flat)
+            mon.mode = None
+            continue
         one_case(ctx, mon, nodes, flat)
         if classes[0] == "integer lattice control points":
             # history: the same path with -1 and -2 exchanged (hash(-1) == hash(-2) in CPython), same flatness
@@ -472,6 +508,7 @@ def run(ctx):
         ctx.need(cls, 100)
     ctx.need("deep subdivision (> 16 successive halvings)", 1)
     ctx.need("monitor:deep subdivision evaluated (flatness, order and end nodes only)", 1)
+    ctx.need("long almost-straight piece (chord / flatness 1e7.5 .. 1e10)", 40)
     ctx.need("monitor:subdivideCubicPath evaluated", 1_000)
     ctx.need("history: after a failed call (malformed arguments)", 10)
     ctx.need("monitor:pieces matched against the dyadic tree", 30_000)
